@@ -1,4 +1,4 @@
-import TR.Lemmas.Hedge
+import TR.Lemmas.HedgeLog
 /-!
 # C12 — hedge: bounded attempts, spaced starts, first success wins, all-failed only when all failed
 
@@ -17,6 +17,14 @@ clones the hedges run on (ready at once, after a while, never).
 instant the attempt's task was spawned), whether the task still waits for its clone to be ready
 (`wait`), the instant their inner call is due, their scripted outcome and the instant their
 completion was observed; `cl.result` is the instant and value of the result delivered to the caller.
+
+These are ghost variables of the model. The section "the clauses over the timestamped event log" ties each of them to
+its line of `trace cfg ops` — the event log with its instants, which is what the correspondence check compares with
+the implementation's log (`result_line_iff_result`, `done_line_iff_completion`, `start_instant_is_in_the_log`,
+`call_line_is_an_attempt`) — and restates the clauses of the property over that log alone (`calls_bounded_log`,
+`starts_spaced_log` / `starts_spaced_marks`, `first_success_wins_log`, `all_failed_only_after_all_failed_log`,
+`one_result_per_call` / `one_result_per_caller`); the section "a panicking attempt" says what the model — and, sampled,
+the code — does with an outcome outside the property's quantifier.
 -/
 namespace TR.Props.C12
 open TR TR.Hedge
@@ -108,7 +116,7 @@ theorem all_failed_only_when_all_failed (cfg : Cfg) (hmax : 1 ≤ cfg.max) (ops 
     rw [hi.noRes hn] at hr; cases hr
   obtain ⟨t', r', h1, _, _, h4⟩ := hi.res hp
   rw [hr] at h1; cases h1
-  exact h4
+  exact h4.1
 
 /-- Nothing is started after the result: every attempt of a resolved call was started at or
 before the instant of its result (and `no_start_when_finished` below: a finished call never
@@ -368,7 +376,7 @@ theorem is_all_attempts_failed_sound (cfg : Cfg) (hmax : 1 ≤ cfg.max) (ops : L
     intro a ha
     have ha' : some (Acc.mk true false (x, y) (x, y)) = some a := ha
     cases ha'
-    exact ⟨rfl, rfl, h4⟩
+    exact ⟨rfl, rfl, h4.1⟩
   | ok v =>
     refine ⟨fun _ _ e => Res.noConfusion e, fun a ha => ?_⟩
     have ha' : (none : Option Acc) = some a := ha
@@ -386,6 +394,389 @@ theorem refused_is_inner_error (cfg : Cfg) (s : State) (c k v : Nat) :
     (stepS cfg s (.refused c k v)).calls = s.calls ∧ (stepS cfg s (.refused c k v)).now = s.now ∧
     (stepS cfg s (.refused c k v)).serial = s.serial :=
   ⟨rfl, rfl, rfl, rfl⟩
+
+/-! ## the clauses over the timestamped event log
+
+`trace cfg ops` is the event log with the instant of every line, as the driver prints it and as the correspondence
+check compares it with the implementation's. The theorems above speak about the ghost record of a request
+(`cl.result`, `a.fin`, `a.startAt`); the ones below tie every ghost to its line of the log and restate the clauses of
+the property over the log alone. A *call result* is a `result c r` line whose `r` is not `HedgeError::Inner`
+(`nonInner r`): `Inner` answers a refused readiness poll (`Op.refused`), never a call. -/
+
+/-- The timestamped log is the log: forgetting the instants gives `State.log`. -/
+theorem trace_is_the_log (cfg : Cfg) (ops : List Op) : (trace cfg ops).map (·.2) = (run cfg ops).log :=
+  trace_log cfg ops
+
+/-- The instants of the log never decrease, and no line is stamped in the future. -/
+theorem trace_instants_nondecreasing (cfg : Cfg) (ops : List Op) :
+    (trace cfg ops).Pairwise (fun x y => x.1 ≤ y.1) ∧ ∀ x ∈ trace cfg ops, x.1 ≤ (run cfg ops).now :=
+  trace_sorted cfg ops
+
+/-- `cl.result` **is** the result line: the log has the line `t: result c r` (for a call result `r`) iff the record
+of request `c` holds `result = some (t, r)`. -/
+theorem result_line_iff_result (cfg : Cfg) (hmax : 1 ≤ cfg.max) (ops : List Op) (c t : Nat) (r : Res)
+    (hr : nonInner r = true) :
+    (t, Ev.result c r) ∈ trace cfg ops ↔
+      ∃ cl, lookup (run cfg ops).calls c = some cl ∧ cl.result = some (t, r) := by
+  cases hl : lookup (run cfg ops).calls c with
+  | none =>
+    constructor
+    · intro hx
+      have := (quiet_of cfg hmax ops c hl _ hx).2
+      simp [isRO, hr] at this
+    · rintro ⟨cl, h, _⟩; cases h
+  | some cl =>
+    have hres := (bridge_of cfg hmax ops c cl hl).2.res
+    have hm := mem_callResults (c := c) (t := t) (r := r) (tr := trace cfg ops)
+    rw [hres] at hm
+    constructor
+    · intro hx
+      refine ⟨cl, rfl, ?_⟩
+      have := hm.mpr ⟨hx, hr⟩
+      cases hq : cl.result with
+      | none => rw [hq] at this; cases this
+      | some p => rw [hq] at this; simp at this; rw [this]
+    · rintro ⟨cl', h, hq⟩
+      cases h
+      exact (hm.mp (by rw [hq]; simp)).1
+
+/-- The witness of the repaired defect, as a timestamped log: the hedge's error at 10 ms, the primary's success at
+100 ms, then the one result line — `result_line_iff_result`, `one_result_per_call`, `first_success_wins_log` and
+`done_line_iff_completion` all have their hypotheses met by it. -/
+example :
+    let cfg : Cfg := { max := 2, delay := fun _ => 10000 }
+    let ops := [Op.arrive 1 [⟨100, .ok⟩, ⟨0, .err 1⟩], .poll 1, .adv 10 [], .poll 1, .poll 1, .adv 90 [0], .poll 1]
+    trace cfg ops = [(0, .innerCall 1 0), (10, .innerCall 1 1), (10, .innerDone 1 1 (.err 1)),
+                     (100, .innerDone 1 0 .ok), (100, .result 1 (.ok 0))] ∧
+    callResults 1 (trace cfg ops) = [(100, .ok 0)] ∧
+    (lookup (run cfg ops).calls 1).map (·.result) = some (some (100, .ok 0)) := by decide
+
+/-- **At most one result per call**: the log never holds two call results for one request. -/
+theorem one_result_per_call (cfg : Cfg) (hmax : 1 ≤ cfg.max) (ops : List Op) (c : Nat) :
+    (callResults c (trace cfg ops)).length ≤ 1 := by
+  cases hl : lookup (run cfg ops).calls c with
+  | none =>
+    rw [callResults_nil_of (fun x hx => (quiet_of cfg hmax ops c hl x hx).2)]; exact Nat.zero_le _
+  | some cl =>
+    rw [(bridge_of cfg hmax ops c cl hl).2.res]
+    cases cl.result <;> simp
+
+/-- A `HedgeError::Inner` result line is the answer to a request the operation list refused (`arrive … rdy=err`);
+no call ever produces one. -/
+theorem inner_error_only_for_refused (cfg : Cfg) (hmax : 1 ≤ cfg.max) (ops : List Op) (t c k v : Nat)
+    (h : (t, Ev.result c (.inner k v)) ∈ trace cfg ops) : Op.refused c k v ∈ ops :=
+  inner_result_origin cfg hmax ops t c k v h
+
+/-- **At most one result per caller**: a caller that was given a call future (never refused) has at most one
+`result` line in the log, whatever it carries. (The driver and the harness make every id arrive exactly once, as a
+request or as a refusal.) -/
+theorem one_result_per_caller (cfg : Cfg) (hmax : 1 ≤ cfg.max) (ops : List Op) (c : Nat)
+    (hnr : ∀ k v, Op.refused c k v ∉ ops) : (resultLines c (trace cfg ops)).length ≤ 1 := by
+  rw [resultLines_length (fun t k v hx => hnr k v (inner_result_origin cfg hmax ops t c k v hx))]
+  exact one_result_per_call cfg hmax ops c
+
+/-- A refused request next to a call: caller 3 is answered `HedgeError::Inner` (its only line), caller 1 — never
+refused — has its one result line. -/
+example :
+    let cfg : Cfg := { max := 2, delay := fun _ => 10000 }
+    let ops := [Op.arrive 1 [⟨0, .ok⟩], .refused 3 9 0, .poll 1, .poll 1]
+    trace cfg ops = [(0, .result 3 (.inner 9 0)), (0, .innerCall 1 0), (0, .innerDone 1 0 .ok), (0, .result 1 (.ok 0))] ∧
+    (resultLines 1 (trace cfg ops)).length = 1 ∧ (resultLines 3 (trace cfg ops)).length = 1 ∧
+    callResults 3 (trace cfg ops) = [] := by decide
+
+/-- `a.fin` **is** the `inner_done` line: the log has `t: inner_done c k o` iff request `c` has an attempt that has
+called the inner service with serial `k`, scripted outcome `o`, whose completion was observed at `t`. -/
+theorem done_line_iff_completion (cfg : Cfg) (hmax : 1 ≤ cfg.max) (ops : List Op) (c t k : Nat) (o : Out) :
+    (t, Ev.innerDone c k o) ∈ trace cfg ops ↔
+      ∃ cl a, lookup (run cfg ops).calls c = some cl ∧ a ∈ cl.attempts ∧ a.wait = .no ∧ a.k = k ∧ a.out = o ∧
+        a.fin = some t := by
+  constructor
+  · intro hx
+    cases hl : lookup (run cfg ops).calls c with
+    | none => have := (quiet_of cfg hmax ops c hl _ hx).1; simp [isCD] at this
+    | some cl =>
+      obtain ⟨a, ha, h1, h2, h3, h4⟩ := (bridge_of cfg hmax ops c cl hl).1.logDone t k o hx
+      exact ⟨cl, a, rfl, ha, h1, h2, h3, h4⟩
+  · rintro ⟨cl, a, hl, ha, h1, rfl, rfl, h4⟩
+    exact (bridge_of cfg hmax ops c cl hl).1.doneLog a ha h1 t h4
+
+/-- `a.startAt` **is** the instant of the line that marks the attempt's start: every attempt has, at `startAt`, its
+`inner_call` line when its clone needs no readiness poll (the primary, or no readiness plan entry — then it has
+called), and its `inner_warm c i w` line (first readiness poll of the fresh clone) otherwise. -/
+theorem start_instant_is_in_the_log (cfg : Cfg) (hmax : 1 ≤ cfg.max) (ops : List Op) (c : Nat) (cl : Call)
+    (hl : lookup (run cfg ops).calls c = some cl) (a : Attempt) (ha : a ∈ cl.attempts) :
+    (warmAt cl.warm a.idx = none → a.wait = .no ∧ (a.startAt, Ev.innerCall c a.k) ∈ trace cfg ops) ∧
+    (∀ wv, warmAt cl.warm a.idx = some wv → (a.startAt, warmEv c a.idx wv) ∈ trace cfg ops) := by
+  have hm := (bridge_of cfg hmax ops c cl hl).1.mark a ha
+  unfold Mark at hm
+  split at hm
+  · rename_i he
+    refine ⟨fun _ => hm, fun wv hq => ?_⟩
+    rw [he] at hq; cases hq
+  · rename_i wv he
+    refine ⟨fun hq => ?_, fun wv' hq => ?_⟩
+    · rw [he] at hq; cases hq
+    · rw [he] at hq; cases hq; exact hm.1
+
+/-- Every `inner_call c k` line belongs to an attempt of request `c`, and stands at or after that attempt's start:
+exactly at it when the attempt's clone needs no readiness poll, at least the clone's warm-up later otherwise; the
+inner call is due (`doneAt`) at that instant plus its latency. -/
+theorem call_line_is_an_attempt (cfg : Cfg) (hmax : 1 ≤ cfg.max) (ops : List Op) (c t k : Nat)
+    (hx : (t, Ev.innerCall c k) ∈ trace cfg ops) :
+    ∃ cl a, lookup (run cfg ops).calls c = some cl ∧ a ∈ cl.attempts ∧ a.wait = .no ∧ a.k = k ∧
+      a.startAt ≤ t ∧ t ≤ a.doneAt ∧ (warmAt cl.warm a.idx = none → t = a.startAt) ∧
+      ∀ d, warmAt cl.warm a.idx = some (.after d) → a.startAt + d ≤ t := by
+  cases hl : lookup (run cfg ops).calls c with
+  | none => have := (quiet_of cfg hmax ops c hl _ hx).1; simp [isCD] at this
+  | some cl =>
+    obtain ⟨a, ha, hr⟩ := (bridge_of cfg hmax ops c cl hl).1.logCall t k hx
+    exact ⟨cl, a, rfl, ha, hr⟩
+
+/-- A hedge whose fresh clone needs 50 ms: started at 10 ms (its `inner_warm` line), its `inner_call` line stands at
+70 ms — the first instant the clock visits after the clone became ready at 60 ms; the primary's lines are at its start
+(0 ms) and its completion (30 ms). -/
+example :
+    let cfg : Cfg := { max := 2, delay := fun _ => 10000 }
+    let ops := [Op.arrive 1 [⟨30, .ok⟩, ⟨5, .ok⟩] [.after 50], .poll 1, .adv 10 [], .poll 1, .adv 20 [0], .poll 1,
+                .adv 40 [.rdy 1 1]]
+    trace cfg ops = [(0, .innerCall 1 0), (10, warmEv 1 1 (.after 50)), (30, .innerDone 1 0 .ok),
+                     (30, .result 1 (.ok 0)), (70, .innerCall 1 1)] ∧
+    (lookup (run cfg ops).calls 1).map (fun cl => cl.attempts.map (fun a => (a.idx, a.startAt, a.wait, a.fin)))
+      = some [(1, 10, .no, none), (0, 0, .no, some 30)] := by decide
+
+/-- **At most `max_hedged_attempts` inner calls**, over the timestamped log. -/
+theorem calls_bounded_log (cfg : Cfg) (hmax : 1 ≤ cfg.max) (ops : List Op) (c : Nat) :
+    (callPairs c (trace cfg ops)).length ≤ cfg.max := by
+  have := congrArg List.length (callPairs_serials c (trace cfg ops))
+  rw [List.length_map, trace_log] at this
+  rw [this]; exact starts_bounded_trace cfg hmax ops c
+
+/-- For a request without a readiness plan (the property's own setting: fresh clones are ready at once), the instants
+of its `inner_call` lines, in log order, **are** the start instants of its attempts, by attempt number. -/
+theorem call_instants_are_the_starts (cfg : Cfg) (hmax : 1 ≤ cfg.max) (ops : List Op) (c : Nat) (cl : Call)
+    (hl : lookup (run cfg ops).calls c = some cl) (hw : cl.warm = []) :
+    (callPairs c (trace cfg ops)).map (·.1) = startsAsc cl := by
+  rw [((bridge_of cfg hmax ops c cl hl).1.nowarm hw).2]
+  simp [startsAsc, starts, Function.comp_def]
+
+/-- **Consecutive starts are at least the configured delay apart**, read off the log: for a request without a
+readiness plan, the `(n+1)`-th `inner_call` line stands no earlier than `delay (n + 1)` (µs; instants in ms) after
+the `n`-th; in parallel mode (`delay 1 = 0`) all stand at one instant. -/
+theorem starts_spaced_log (cfg : Cfg) (hmax : 1 ≤ cfg.max) (ops : List Op) (c : Nat) (cl : Call)
+    (hl : lookup (run cfg ops).calls c = some cl) (hw : cl.warm = []) (n : Nat)
+    (hn : n + 1 < (callPairs c (trace cfg ops)).length) :
+    if cfg.delay 1 = 0 then
+      ((callPairs c (trace cfg ops)).map (·.1)).getD (n + 1) 0 = ((callPairs c (trace cfg ops)).map (·.1)).getD n 0
+    else ((callPairs c (trace cfg ops)).map (·.1)).getD n 0 * 1000 + cfg.delay (n + 1)
+      ≤ ((callPairs c (trace cfg ops)).map (·.1)).getD (n + 1) 0 * 1000 := by
+  have hlen : (callPairs c (trace cfg ops)).length = cl.attempts.length := by
+    rw [((bridge_of cfg hmax ops c cl hl).1.nowarm hw).2]; simp
+  rw [call_instants_are_the_starts cfg hmax ops c cl hl hw]
+  exact starts_spaced_indexed cfg hmax ops c cl ((record_unique cfg ops c cl).mpr hl) n (by rw [← hlen]; exact hn)
+
+/-- Spacing for **any** request, readiness plans included, over the lines that mark the starts: attempts number `n`
+and `n + 1` are records `a`, `b` of the request (`idx` = attempt number) whose start instants are at least
+`delay (n + 1)` apart (equal in parallel mode), and each has its start mark in the log at that instant — its
+`inner_warm c n w` line if the readiness plan lists its clone, its `inner_call` line otherwise. -/
+theorem starts_spaced_marks (cfg : Cfg) (hmax : 1 ≤ cfg.max) (ops : List Op) (c : Nat) (cl : Call)
+    (hl : lookup (run cfg ops).calls c = some cl) (n : Nat) (hn : n + 1 < cl.attempts.length) :
+    ∃ a ∈ cl.attempts, ∃ b ∈ cl.attempts, a.idx = n ∧ b.idx = n + 1 ∧
+      (if cfg.delay 1 = 0 then b.startAt = a.startAt else a.startAt * 1000 + cfg.delay (n + 1) ≤ b.startAt * 1000) ∧
+      (∀ x ∈ [a, b],
+        (warmAt cl.warm x.idx = none → (x.startAt, Ev.innerCall c x.k) ∈ trace cfg ops) ∧
+        (∀ wv, warmAt cl.warm x.idx = some wv → (x.startAt, warmEv c x.idx wv) ∈ trace cfg ops)) := by
+  have hb := (bridge_of cfg hmax ops c cl hl).1
+  obtain ⟨a, ha, ha1, ha2⟩ := attempt_of_number hb n (by omega)
+  obtain ⟨b, hbm, hb1, hb2⟩ := attempt_of_number hb (n + 1) hn
+  refine ⟨a, ha, b, hbm, ha1, hb1, ?_, ?_⟩
+  · rw [ha2, hb2]
+    exact starts_spaced_indexed cfg hmax ops c cl ((record_unique cfg ops c cl).mpr hl) n hn
+  · intro x hx
+    have hxm : x ∈ cl.attempts := by
+      rcases List.mem_cons.mp hx with q | q
+      · rw [q]; exact ha
+      · simp at q; rw [q]; exact hbm
+    obtain ⟨m1, m2⟩ := start_instant_is_in_the_log cfg hmax ops c cl hl x hxm
+    exact ⟨fun hq => (m1 hq).2, m2⟩
+
+/-- With readiness plans: three attempts 10 ms apart, hedge 1 on a clone that needs 20 ms, hedge 2 on one that is
+ready at once — the start marks stand at 0 (`inner_call`), 10 and 20 ms (`inner_warm`), although hedge 2 calls the
+inner service (at 20 ms) before hedge 1 does (at 30 ms). -/
+example :
+    let cfg : Cfg := { max := 3, delay := fun _ => 10000 }
+    let ops := [Op.arrive 1 [⟨100, .ok⟩, ⟨7, .err 1⟩, ⟨3, .ok⟩] [.after 20, .after 0], .poll 1, .adv 10 [], .poll 1,
+                .adv 10 [], .poll 1, .adv 10 [.done 1, .rdy 1 1]]
+    trace cfg ops = [(0, .innerCall 1 0), (10, warmEv 1 1 (.after 20)), (20, warmEv 1 2 (.after 0)),
+                     (20, .innerCall 1 1), (30, .innerDone 1 1 (.err 1)), (30, .innerCall 1 2)] ∧
+    (lookup (run cfg ops).calls 1).map (fun cl => cl.attempts.map (fun a => (a.idx, a.startAt, a.k)))
+      = some [(2, 20, 1), (1, 10, 2), (0, 0, 0)] := by decide
+
+/-- **The caller's result is the first successful attempt's response, in log order**: a line `t: result c ok:v`
+stands after a line `tf: inner_done c v ok` (`tf ≤ t`), and no `inner_done c _ ok` line of the log stands before
+that one. -/
+theorem first_success_wins_log (cfg : Cfg) (hmax : 1 ≤ cfg.max) (ops : List Op) (c t v : Nat)
+    (hx : (t, Ev.result c (.ok v)) ∈ trace cfg ops) :
+    ∃ p1 tf p2 post, trace cfg ops = p1 ++ (tf, Ev.innerDone c v .ok) :: p2 ++ (t, Ev.result c (.ok v)) :: post ∧
+      (∀ x ∈ p1, ∀ k, x.2 ≠ Ev.innerDone c k .ok) ∧ tf ≤ t := by
+  obtain ⟨cl, hl, hr⟩ := (result_line_iff_result cfg hmax ops c t (.ok v) rfl).mp hx
+  obtain ⟨pre, post, e, hh⟩ := (bridge_of cfg hmax ops c cl hl).2.okRes t v hr
+  obtain ⟨p1, x, p2, e2, hxv, hp1⟩ := filterMap_head (okOf c) v pre hh
+  obtain ⟨tf, ev⟩ := x
+  have hev : ev = Ev.innerDone c v .ok := okOf_some hxv
+  subst hev
+  refine ⟨p1, tf, p2, post, by rw [e, e2], fun y hy => okOf_none (hp1 y hy), ?_⟩
+  exact sorted_before (y := (tf, Ev.innerDone c v .ok)) (trace_sorted cfg ops).1 e (by rw [e2]; simp)
+
+/-- **All-attempts-failed only after every startable attempt has failed**, in log order: a line
+`t: result c err:all_failed` stands after the failure line of **every** one of the `max_hedged_attempts` attempts
+of the request — for an attempt that called the inner service its `inner_done c k err…/panic` line, for a hedge whose
+fresh clone failed its readiness poll (it never called) its `inner_warm c i fail` line. -/
+theorem all_failed_only_after_all_failed_log (cfg : Cfg) (hmax : 1 ≤ cfg.max) (ops : List Op) (c t x y : Nat)
+    (hx : (t, Ev.result c (.allFailed x y)) ∈ trace cfg ops) :
+    ∃ pre post cl, trace cfg ops = pre ++ (t, Ev.result c (.allFailed x y)) :: post ∧
+      lookup (run cfg ops).calls c = some cl ∧ cl.attempts.length = cfg.max ∧
+      ∀ a ∈ cl.attempts, isFail a.out = true ∧
+        ((a.wait = .no ∧ ∃ tf, tf ≤ t ∧ (tf, Ev.innerDone c a.k a.out) ∈ pre) ∨
+         (a.wait ≠ .no ∧ a.startAt ≤ t ∧ (a.startAt, warmEv c a.idx .fail) ∈ pre)) := by
+  obtain ⟨cl, hl, hr⟩ := (result_line_iff_result cfg hmax ops c t (.allFailed x y) rfl).mp hx
+  obtain ⟨pre, post, e, hf⟩ := (bridge_of cfg hmax ops c cl hl).1.failRes t _ hr (fun v h => nomatch h)
+  obtain ⟨hlen, hall⟩ := (result_spec cfg hmax ops c cl hl t _ hr).1.1
+  refine ⟨pre, post, cl, e, hl, hlen, ?_⟩
+  intro a ha
+  obtain ⟨_, _, _, hfail⟩ := hall a ha
+  refine ⟨hfail, ?_⟩
+  rcases (hf a ha).2 with ⟨hw, tf, _, hline⟩ | ⟨hw, hline⟩
+  · exact Or.inl ⟨hw, tf, sorted_before (trace_sorted cfg ops).1 e hline, hline⟩
+  · exact Or.inr ⟨hw, sorted_before (trace_sorted cfg ops).1 e hline, hline⟩
+
+/-- Three attempts 10 ms apart although the primary fails at 2 ms: the `inner_call` lines stand at 0, 10, 20 ms, and
+`result … err:all_failed` stands after the `inner_done … err` line of all three. -/
+example :
+    let cfg : Cfg := { max := 3, delay := fun _ => 10000 }
+    let ops := [Op.arrive 1 [⟨2, .err 1⟩, ⟨5, .err 2⟩, ⟨0, .err 3⟩], .poll 1, .adv 2 [0], .poll 1,
+                .adv 8 [], .poll 1, .adv 5 [1], .poll 1, .adv 5 [], .poll 1, .poll 1]
+    trace cfg ops = [(0, .innerCall 1 0), (2, .innerDone 1 0 (.err 1)), (10, .innerCall 1 1),
+                     (15, .innerDone 1 1 (.err 2)), (20, .innerCall 1 2), (20, .innerDone 1 2 (.err 3)),
+                     (20, .result 1 (.allFailed 1 0))] ∧
+    (callPairs 1 (trace cfg ops)).map (·.1) = [0, 10, 20] ∧
+    (lookup (run cfg ops).calls 1).map (·.warm) = some [] := by decide
+
+/-- … and with a hedge whose clone fails its readiness poll the failure line of that attempt is its `inner_warm … fail`. -/
+example :
+    let cfg : Cfg := { max := 2, delay := fun _ => 10000 }
+    let ops := [Op.arrive 1 [⟨30, .err 2⟩, ⟨5, .ok⟩] [.fail], .poll 1, .adv 10 [], .poll 1, .adv 20 [0], .poll 1]
+    trace cfg ops = [(0, .innerCall 1 0), (10, warmEv 1 1 .fail), (30, .innerDone 1 0 (.err 2)),
+                     (30, .result 1 (.allFailed 2 0))] := by decide
+
+/-! ## a panicking attempt -/
+
+/-- **The drain phase's panic** (`expect` on a closed channel with no error received): the call of a request ends in a
+panic only in parallel / single-attempt mode (never in latency mode), only when all `max_hedged_attempts` attempts
+were started, and only when **every** one of them panicked, each before that instant. -/
+theorem panic_only_when_all_panicked (cfg : Cfg) (hmax : 1 ≤ cfg.max) (ops : List Op) (c : Nat) (cl : Call)
+    (h : (c, cl) ∈ (run cfg ops).calls) (t : Nat) (hr : cl.result = some (t, .panic)) :
+    ¬ (1 < cfg.max ∧ cfg.delay 1 ≠ 0) ∧ cl.attempts.length = cfg.max ∧
+    ∀ a ∈ cl.attempts, a.out = .panic ∧ ∃ tf, a.fin = some tf ∧ tf ≤ t :=
+  (result_spec cfg hmax ops c cl ((record_unique cfg ops c cl).mp h) t _ hr).1
+
+/-- … over the log: a line `t: result c panic` stands after an `inner_done c k panic` line of every one of the
+request's `max_hedged_attempts` attempts. -/
+theorem panic_only_after_all_panicked_log (cfg : Cfg) (hmax : 1 ≤ cfg.max) (ops : List Op) (c t : Nat)
+    (hx : (t, Ev.result c .panic) ∈ trace cfg ops) :
+    ¬ (1 < cfg.max ∧ cfg.delay 1 ≠ 0) ∧
+    ∃ pre post cl, trace cfg ops = pre ++ (t, Ev.result c .panic) :: post ∧
+      lookup (run cfg ops).calls c = some cl ∧ cl.attempts.length = cfg.max ∧
+      ∀ a ∈ cl.attempts, a.out = .panic ∧
+        ((a.wait = .no ∧ ∃ tf, tf ≤ t ∧ (tf, Ev.innerDone c a.k .panic) ∈ pre) ∨
+         (a.wait ≠ .no ∧ (a.startAt, warmEv c a.idx .fail) ∈ pre)) := by
+  obtain ⟨cl, hl, hr⟩ := (result_line_iff_result cfg hmax ops c t .panic rfl).mp hx
+  obtain ⟨pre, post, e, hf⟩ := (bridge_of cfg hmax ops c cl hl).1.failRes t _ hr (fun v h => nomatch h)
+  obtain ⟨hmode, hlen, hall⟩ := (result_spec cfg hmax ops c cl hl t _ hr).1
+  refine ⟨hmode, pre, post, cl, e, hl, hlen, ?_⟩
+  intro a ha
+  obtain ⟨hp, _⟩ := hall a ha
+  refine ⟨hp, ?_⟩
+  rcases (hf a ha).2 with ⟨hw, tf, _, hline⟩ | ⟨hw, hline⟩
+  · exact Or.inl ⟨hw, tf, sorted_before (trace_sorted cfg ops).1 e hline, by rw [← hp]; exact hline⟩
+  · exact Or.inr ⟨hw, hline⟩
+
+/-- Parallel mode, both attempts panic: the call ends in a panic, after both `inner_done … panic` lines. With one
+error among them the call reports all-attempts-failed with that error instead (second history). -/
+example :
+    let cfg : Cfg := { max := 2, delay := fun _ => 0 }
+    trace cfg [Op.arrive 1 [⟨5, .panic⟩, ⟨7, .panic⟩], .poll 1, .adv 5 [0], .poll 1, .adv 2 [1], .poll 1]
+      = [(0, .innerCall 1 0), (0, .innerCall 1 1), (5, .innerDone 1 0 .panic), (7, .innerDone 1 1 .panic),
+         (7, .result 1 .panic)] ∧
+    trace cfg [Op.arrive 1 [⟨5, .panic⟩, ⟨7, .err 4⟩], .poll 1, .adv 5 [0], .poll 1, .adv 2 [1], .poll 1]
+      = [(0, .innerCall 1 0), (0, .innerCall 1 1), (5, .innerDone 1 0 .panic), (7, .innerDone 1 1 (.err 4)),
+         (7, .result 1 (.allFailed 4 1))] := by decide
+
+/-- **Latency mode counts errors received, and a panicking attempt sends nothing**: in latency mode
+(`max_hedged_attempts > 1`, first delay not zero) a call never ends in a panic, and all-attempts-failed means that
+every attempt ended with an **error** — not one of them panicked. -/
+theorem latency_mode_failure_is_errors_only (cfg : Cfg) (hmax : 1 < cfg.max) (hd : cfg.delay 1 ≠ 0) (ops : List Op)
+    (c : Nat) (cl : Call) (h : (c, cl) ∈ (run cfg ops).calls) (t : Nat) (r : Res) (hr : cl.result = some (t, r)) :
+    r ≠ .panic ∧ ∀ x y, r = .allFailed x y → ∀ a ∈ cl.attempts, isErr a.out = true := by
+  have hs := (result_spec cfg (Nat.le_of_lt hmax) ops c cl ((record_unique cfg ops c cl).mp h) t r hr).1
+  constructor
+  · intro e; subst e; exact hs.1 ⟨hmax, hd⟩
+  · intro x y e; subst e; exact hs.2 hmax hd
+
+/-- **A panicking attempt wedges a latency-mode hedge** (the behaviour DESIGN §0 notes): once the log of a
+latency-mode call holds an `inner_done c k panic` line, the only call result the request can ever get is a response
+`ok:v` of an attempt that succeeded (`inner_done c v ok` in the log) — never all-attempts-failed, never a panic,
+whatever the operations and however far time advances. -/
+theorem panicked_attempt_only_success_resolves (cfg : Cfg) (hmax : 1 < cfg.max) (hd : cfg.delay 1 ≠ 0) (ops : List Op)
+    (c tp k : Nat) (hp : (tp, Ev.innerDone c k .panic) ∈ trace cfg ops) (t : Nat) (r : Res) (hni : nonInner r = true)
+    (hx : (t, Ev.result c r) ∈ trace cfg ops) :
+    ∃ v tf, r = .ok v ∧ (tf, Ev.innerDone c v .ok) ∈ trace cfg ops ∧ tf ≤ t := by
+  have h1 : 1 ≤ cfg.max := Nat.le_of_lt hmax
+  obtain ⟨cl, hl, hr⟩ := (result_line_iff_result cfg h1 ops c t r hni).mp hx
+  obtain ⟨cl', a, hl', ha, _, _, ho, _⟩ := (done_line_iff_completion cfg h1 ops c tp k .panic).mp hp
+  rw [hl] at hl'; cases hl'
+  have hs := (result_spec cfg h1 ops c cl hl t r hr).1
+  cases r with
+  | ok v =>
+    obtain ⟨p1, tf, p2, post, e, _, hle⟩ := first_success_wins_log cfg h1 ops c t v hx
+    exact ⟨v, tf, rfl, by rw [e]; simp, hle⟩
+  | allFailed x y =>
+    have := hs.2 hmax hd a ha
+    rw [ho] at this; cases this
+  | panic => exact absurd ⟨hmax, hd⟩ hs.1
+  | inner k v => cases hni
+  | _ => exact False.elim hs
+
+/-- … so if, besides, no attempt of the request ever succeeds, the request **never gets a result**: the call hangs,
+although every attempt it could start may have been started and have failed. (All-attempts-failed is still reported
+*only when* all have failed — the property's clause — but not *whenever*: see `notes/proofs-hedge.md`.) -/
+theorem panicked_attempt_wedges_latency_hedge (cfg : Cfg) (hmax : 1 < cfg.max) (hd : cfg.delay 1 ≠ 0) (ops : List Op)
+    (c tp k : Nat) (hp : (tp, Ev.innerDone c k .panic) ∈ trace cfg ops)
+    (hno : ∀ tf v, (tf, Ev.innerDone c v .ok) ∉ trace cfg ops) :
+    callResults c (trace cfg ops) = [] := by
+  cases hq : callResults c (trace cfg ops) with
+  | nil => rfl
+  | cons p tl =>
+    obtain ⟨t, r⟩ := p
+    have hm : (t, r) ∈ callResults c (trace cfg ops) := by rw [hq]; simp
+    obtain ⟨hx, hni⟩ := mem_callResults.mp hm
+    obtain ⟨v, tf, _, hline, _⟩ := panicked_attempt_only_success_resolves cfg hmax hd ops c tp k hp t r hni hx
+    exact absurd hline (hno tf v)
+
+/-- The same two outcomes in latency mode (delay 10 ms): the primary panics at 5 ms, the hedge fails at 15 ms —
+every attempt the call can start has been started and has failed, and the call is still waiting a million
+milliseconds later (no result line, phase `latency`, one error counted of two). Had the hedge succeeded, the call
+would have resolved with its response (second history). -/
+example :
+    let cfg : Cfg := { max := 2, delay := fun _ => 10000 }
+    let ops := [Op.arrive 1 [⟨5, .panic⟩, ⟨5, .err 1⟩], .poll 1, .adv 5 [0], .poll 1, .adv 5 [], .poll 1, .adv 5 [1],
+                .poll 1, .adv 1000000 [], .poll 1]
+    trace cfg ops = [(0, .innerCall 1 0), (5, .innerDone 1 0 .panic), (10, .innerCall 1 1),
+                     (15, .innerDone 1 1 (.err 1))] ∧
+    callResults 1 (trace cfg ops) = [] ∧
+    (lookup (run cfg ops).calls 1).map (fun cl => (cl.phase, cl.errors, cl.attempts.length)) = some (.latency, 1, 2) ∧
+    trace cfg [Op.arrive 1 [⟨5, .panic⟩, ⟨5, .ok⟩], .poll 1, .adv 5 [0], .poll 1, .adv 5 [], .poll 1, .adv 5 [1], .poll 1]
+      = [(0, .innerCall 1 0), (5, .innerDone 1 0 .panic), (10, .innerCall 1 1), (15, .innerDone 1 1 .ok),
+         (15, .result 1 (.ok 1))] := by decide
 
 /-! ## non-vacuity: concrete histories -/
 
